@@ -1,6 +1,7 @@
 package batchproc
 
 import (
+	"encoding/binary"
 	"context"
 	"fmt"
 	"regexp"
@@ -113,6 +114,9 @@ type History struct {
 	Stacks           string
 	Spans            map[string]SpanRec
 	Stuck            bool // bubble abandoned: something never returned
+	// Deadlock: the bubble froze on a lock before the scenario ended (Run's
+	// watchdog); the history holds nothing else then
+	Deadlock string
 	SetupErr         error
 }
 
@@ -127,14 +131,37 @@ type sink struct {
 
 func (s *sink) Capabilities() consumer.Capabilities { return consumer.Capabilities{} }
 
+// The next consumer OWNS the batch it is handed (the collector's ownership
+// rule for pipelines: after the hand-over the previous component neither
+// reads nor writes the data, "as it may be concurrently modified by the new
+// owner"). In Retain scenarios the sink behaves like a queueing consumer: it
+// keeps the batch and modifies it on a goroutine of its own after a
+// successful return. The oracles work on the deep copy taken at entry; what
+// this mode adds is that a processor that still touches the batch afterwards
+// is reported by the race detector (C11, -race jobs).
 func (s *sink) ConsumeTraces(ctx context.Context, td ptrace.Traces) error {
-	return s.export(ctx, TraceItems(td))
+	return s.export(ctx, TraceItems(td), func() {
+		if td.ResourceSpans().Len() > 0 {
+			td.ResourceSpans().At(0).Resource().Attributes().PutStr("owned-by", "next consumer")
+		}
+		td.ResourceSpans().RemoveIf(func(ptrace.ResourceSpans) bool { return true })
+	})
 }
 func (s *sink) ConsumeLogs(ctx context.Context, ld plog.Logs) error {
-	return s.export(ctx, LogItems(ld))
+	return s.export(ctx, LogItems(ld), func() {
+		if ld.ResourceLogs().Len() > 0 {
+			ld.ResourceLogs().At(0).Resource().Attributes().PutStr("owned-by", "next consumer")
+		}
+		ld.ResourceLogs().RemoveIf(func(plog.ResourceLogs) bool { return true })
+	})
 }
 func (s *sink) ConsumeMetrics(ctx context.Context, md pmetric.Metrics) error {
-	return s.export(ctx, MetricItems(md))
+	return s.export(ctx, MetricItems(md), func() {
+		if md.ResourceMetrics().Len() > 0 {
+			md.ResourceMetrics().At(0).Resource().Attributes().PutStr("owned-by", "next consumer")
+		}
+		md.ResourceMetrics().RemoveIf(func(pmetric.ResourceMetrics) bool { return true })
+	})
 }
 
 // ExportError is the failure returned by export k.
@@ -161,7 +188,7 @@ func exportFailure(k, kind int) error {
 	return e
 }
 
-func (s *sink) export(ctx context.Context, items []Item) error {
+func (s *sink) export(ctx context.Context, items []Item, mutate func()) error {
 	e := &Export{Items: items, Marker: -1, ctx: ctx, gate: make(chan error, 1), Meta: map[string][]string{}}
 	if v, ok := ctx.Value(markerKey{}).(int); ok {
 		e.Marker = v
@@ -172,7 +199,7 @@ func (s *sink) export(ctx context.Context, items []Item) error {
 		e.Meta[lk] = info.Metadata.Get(lk)
 	}
 	if sc := trace.SpanContextFromContext(ctx); sc.IsValid() {
-		e.SpanID = sc.SpanID().String()
+		e.SpanID = spanKey(sc)
 	}
 	e.ErrAtEntry = ctx.Err()
 	s.mu.Lock()
@@ -210,6 +237,9 @@ func (s *sink) export(ctx context.Context, items []Item) error {
 		e.ErrSeen = ctx.Err()
 	}
 	s.mu.Unlock()
+	if err == nil && s.sc.Retain {
+		go mutate()
+	}
 	return err
 }
 
@@ -221,6 +251,7 @@ var bubbleRe = regexp.MustCompile(`synctest bubble (\d+)`)
 // failures.
 func Run(t *testing.T, sc *Scenario) *History {
 	verdict := make(chan *History, 1)
+	tag := make(chan string, 1)
 	park := make(chan struct{})
 	go func() {
 		defer func() {
@@ -232,6 +263,10 @@ func Run(t *testing.T, sc *Scenario) *History {
 			}
 		}()
 		synctest.Test(t, func(t *testing.T) {
+			buf := make([]byte, 256)
+			if m := bubbleRe.FindString(string(buf[:runtime.Stack(buf, false)])); m != "" {
+				tag <- m
+			}
 			h := runInBubble(sc)
 			verdict <- h
 			if h.Stuck {
@@ -239,7 +274,87 @@ func Run(t *testing.T, sc *Scenario) *History {
 			}
 		})
 	}()
-	return <-verdict
+	// A goroutine that waits for a sync.Mutex is not "durably blocked" for
+	// synctest: when processor goroutines deadlock on a mutex, synctest.Wait
+	// never returns and neither does the bubble. The watchdog below looks at
+	// the bubble every few seconds of wall time; the verdict is NOT the time
+	// that passed but the state it finds: no goroutine of the bubble is
+	// running or runnable, one of them is waiting for a lock inside processor
+	// code, and two seconds later the picture is exactly the same. Virtual time
+	// cannot advance in that state, so nothing can ever wake the bubble up.
+	me := ""
+	tick := time.NewTicker(stallProbe)
+	defer tick.Stop()
+	for {
+		select {
+		case h := <-verdict:
+			return h
+		case m := <-tag:
+			me = m
+		case <-tick.C:
+			if me == "" {
+				continue
+			}
+			first := frozenBubble(me)
+			if first == "" {
+				continue
+			}
+			time.Sleep(2 * time.Second)
+			select {
+			case h := <-verdict:
+				return h
+			default:
+			}
+			if frozenBubble(me) == first {
+				return &History{Sc: sc, Groups: map[int]*CtxGroup{}, Expected: map[string]Item{}, Owner: map[string]int{}, Spans: map[string]SpanRec{}, Stuck: true, Deadlock: first}
+			}
+		}
+	}
+}
+
+// stallProbe is how often the watchdog looks at a bubble that has not
+// reported back (a scenario takes about a millisecond).
+const stallProbe = 8 * time.Second
+
+var goroutineHead = regexp.MustCompile(`^goroutine (\d+) \[([^\]]*)\]`)
+
+// frozenBubble returns a description of the bubble when it can never make
+// progress again (see Run), and "" otherwise.
+func frozenBubble(tag string) string {
+	buf := make([]byte, 8<<20)
+	n := runtime.Stack(buf, true)
+	var sig []string
+	lockWait := false
+	for _, gs := range strings.Split(string(buf[:n]), "\n\n") {
+		head := strings.SplitN(gs, "\n", 2)[0]
+		if !strings.Contains(head, tag) {
+			continue
+		}
+		m := goroutineHead.FindStringSubmatch(head)
+		if m == nil {
+			continue
+		}
+		state := m[2]
+		if strings.HasPrefix(state, "running") || strings.HasPrefix(state, "runnable") || strings.HasPrefix(state, "syscall") {
+			return ""
+		}
+		lines := strings.Split(gs, "\n")
+		top := ""
+		if len(lines) > 1 {
+			top = strings.TrimSpace(lines[1])
+		}
+		if (strings.HasPrefix(state, "sync.Mutex.Lock") || strings.HasPrefix(state, "sync.RWMutex") || strings.HasPrefix(state, "semacquire")) && strings.Contains(gs, "concurrentbatchprocessor.") {
+			lockWait = true
+			sig = append(sig, "goroutine "+m[1]+" waits for a lock:\n"+gs)
+		} else {
+			sig = append(sig, "goroutine "+m[1]+" ["+strings.SplitN(state, ",", 2)[0]+"] "+top)
+		}
+	}
+	if !lockWait {
+		return ""
+	}
+	sort.Strings(sig)
+	return strings.Join(sig, "\n")
 }
 
 func runInBubble(sc *Scenario) *History {
@@ -262,7 +377,11 @@ func runInBubble(sc *Scenario) *History {
 		return h
 	}
 	recorder := tracetest.NewSpanRecorder()
-	tp := sdktrace.NewTracerProvider(sdktrace.WithSpanProcessor(recorder))
+	tpOpts := []sdktrace.TracerProviderOption{sdktrace.WithSpanProcessor(recorder)}
+	if sc.SmallIDs {
+		tpOpts = append(tpOpts, sdktrace.WithIDGenerator(&perTraceIDs{next: map[trace.TraceID]uint64{}}))
+	}
+	tp := sdktrace.NewTracerProvider(tpOpts...)
 	tracer := tp.Tracer("harness")
 	set := processortest.NewNopSettings(f.Type())
 	set.TelemetrySettings.TracerProvider = tp
@@ -336,7 +455,7 @@ func runInBubble(sc *Scenario) *History {
 			}
 			base = sb.ctx
 			g.span = sb.span
-			g.SpanID = sb.span.SpanContext().SpanID().String()
+			g.SpanID = spanKey(sb.span.SpanContext())
 		}
 		ctx := context.WithValue(base, markerKey{}, r.Ctx)
 		if len(r.Meta) > 0 {
@@ -545,12 +664,12 @@ func runInBubble(sc *Scenario) *History {
 		}
 	}
 	for _, s := range recorder.Ended() {
-		r := SpanRec{Name: s.Name(), SpanID: s.SpanContext().SpanID().String()}
+		r := SpanRec{Name: s.Name(), SpanID: spanKey(s.SpanContext())}
 		if s.Parent().IsValid() {
-			r.Parent = s.Parent().SpanID().String()
+			r.Parent = spanKey(s.Parent())
 		}
 		for _, l := range s.Links() {
-			r.Links = append(r.Links, l.SpanContext.SpanID().String())
+			r.Links = append(r.Links, spanKey(l.SpanContext))
 		}
 		h.Spans[r.SpanID] = r
 	}
@@ -570,4 +689,42 @@ func regItems(h *History, mu *sync.Mutex, req int, items []Item) {
 		h.Owner[it.ID] = req
 	}
 	mu.Unlock()
+}
+
+// spanKey identifies a span the way the tracing model does: by trace id AND
+// span id (a span id is only unique within its trace).
+func spanKey(sc trace.SpanContext) string {
+	return sc.TraceID().String() + "/" + sc.SpanID().String()
+}
+
+// perTraceIDs is an sdktrace.IDGenerator that numbers traces 1, 2, 3 ... and
+// the spans of each trace 1, 2, 3 ...: every root span - so every request
+// span of a scenario - has span id 1, in a trace of its own. Valid ids (a
+// span id has to be unique within its trace only), as sequential and
+// per-trace generators produce them (seeded change C18e).
+type perTraceIDs struct {
+	mu     sync.Mutex
+	traces uint64
+	next   map[trace.TraceID]uint64
+}
+
+func (g *perTraceIDs) NewIDs(context.Context) (trace.TraceID, trace.SpanID) {
+	g.mu.Lock()
+	defer g.mu.Unlock()
+	g.traces++
+	var t trace.TraceID
+	binary.BigEndian.PutUint64(t[8:], g.traces)
+	g.next[t] = 1
+	var s trace.SpanID
+	binary.BigEndian.PutUint64(s[:], 1)
+	return t, s
+}
+
+func (g *perTraceIDs) NewSpanID(_ context.Context, t trace.TraceID) trace.SpanID {
+	g.mu.Lock()
+	defer g.mu.Unlock()
+	g.next[t]++
+	var s trace.SpanID
+	binary.BigEndian.PutUint64(s[:], g.next[t])
+	return s
 }
